@@ -23,12 +23,16 @@ PRESETS = {"precise": 4, "default": 6}
 E = {"e0": (1001, 1200), "e1": (1601, 1800), "em": (2101, 2130), "e2": (2501, 2700), "e3": (3101, 3300), "e4a": (3701, 3850), "e4b": (3891, 4100)}
 T1 = ["e0", "e1", "em", "e2", "e3", "e4a", "e4b"]
 T2 = ["e0", "e1", "e2", "e3", "e4a", "e4b"]
+# T3: T2 with an alternative acceptor 3 bp downstream (NAGNAG-like): two annotated introns within every delta of each other at both ends
+E["e3x"] = (3104, 3300)
+T3 = ["e0", "e1", "e2", "e3x", "e4a", "e4b"]
 
 
 def annotation():
     from vlib import syn
     w = {"chroms": {"chr1": 7000}, "genes": [{"id": "G1", "chr": "chr1", "strand": "+", "transcripts": [
-        {"id": "T1", "exons": [list(E[x]) for x in T1]}, {"id": "T2", "exons": [list(E[x]) for x in T2]}]}], "reads": [], "sites": []}
+        {"id": "T1", "exons": [list(E[x]) for x in T1]}, {"id": "T2", "exons": [list(E[x]) for x in T2]},
+        {"id": "T3", "exons": [list(E[x]) for x in T3]}]}], "reads": [], "sites": []}
     syn.plant_for_transcripts(w)
     return w
 
@@ -254,7 +258,8 @@ def pipeline_case(args):
         if r["isoform_id"] != ".":
             assigned.setdefault(r["read_id"], set()).add(r["isoform_id"])
     iso_introns = {"T1": [(E[T1[i]][1] + 1, E[T1[i + 1]][0] - 1) for i in range(len(T1) - 1)],
-                   "T2": [(E[T2[i]][1] + 1, E[T2[i + 1]][0] - 1) for i in range(len(T2) - 1)]}
+                   "T2": [(E[T2[i]][1] + 1, E[T2[i + 1]][0] - 1) for i in range(len(T2) - 1)],
+                   "T3": [(E[T3[i]][1] + 1, E[T3[i + 1]][0] - 1) for i in range(len(T3) - 1)]}
     annotated_sites_l = set(i[0] for v in iso_introns.values() for i in v)
     annotated_sites_r = set(i[1] for v in iso_introns.values() for i in v)
     changed = 0
